@@ -83,7 +83,7 @@ class OneShotBroker:
         pass
 
 
-async def wire_segments(text, esm_class, ref, encoding=None, params=()):
+async def wire_segments(text, esm_class, ref, encoding=None, params=(), rich_options=False):
     """Run the real sender once on SubmitSm(text, esm_class, auto_message_payload=False); returns
     ('ok', [pdu...]) or ('err', exception)."""
     from aiosmpplib.protocol import SubmitSm
@@ -99,10 +99,19 @@ async def wire_segments(text, esm_class, ref, encoding=None, params=()):
 
         async def dequeue(self):
             return self.m
-    from aiosmpplib.state import OptionalParam
-    msg = SubmitSm(short_message=text, source=PhoneNumber('1000'), destination=PhoneNumber('2000'),
+    from aiosmpplib.state import OptionalParam, TON, NPI
+    from datetime import timedelta
+    extra = {}
+    src, dst = PhoneNumber('1000'), PhoneNumber('2000')
+    if rich_options:
+        # every option of the message away from its default (the expected octets are WIRE_OPTIONS, written from SMPP 3.4 5.2 / 7.1.1)
+        src = PhoneNumber('1000', TON.NATIONAL, NPI.TELEX)
+        dst = PhoneNumber('2000', TON.INTERNATIONAL, NPI.ISDN)
+        extra = dict(protocol_id=0x41, priority_flag=2, schedule_delivery_time=timedelta(minutes=5), validity_period=timedelta(hours=6),
+                     replace_if_present_flag=1, sm_default_msg_id=9)
+    msg = SubmitSm(short_message=text, source=src, destination=dst,
                    esm_class=esm_class, auto_message_payload=False, log_id='L', service_type='ab', encoding=encoding,
-                   optional_params=[OptionalParam(t, v) for t, v in params])
+                   optional_params=[OptionalParam(t, v) for t, v in params], **extra)
     loop = asyncio.get_running_loop()
     esme, hook = sess.make_esme(broker=B(msg), testing=True)
     _r, writer, tr, _p = sess.make_stream(loop)
@@ -117,7 +126,16 @@ async def wire_segments(text, esm_class, ref, encoding=None, params=()):
     return 'ok', tr.written, hook
 
 
-def oracle_wire(text, esm_class, ref, pdus, params=()):
+# mandatory fields of a submit_sm that are options of the MESSAGE (not of the segment): default set, and the set of wire_segments(rich_options)
+WIRE_OPTIONS = {
+    False: dict(src_ton=0, src_npi=0, dst_ton=0, dst_npi=0, protocol_id=0, priority_flag=0, schedule=b'', validity=b'',
+                replace_if_present=0, sm_default_msg_id=0),
+    True: dict(src_ton=2, src_npi=4, dst_ton=1, dst_npi=1, protocol_id=0x41, priority_flag=2, schedule=b'000000000500000R',
+               validity=b'000000060000000R', replace_if_present=1, sm_default_msg_id=9),
+}
+
+
+def oracle_wire(text, esm_class, ref, pdus, params=(), rich_options=False):
     """Independent receiver: every PDU fits, boundaries are clean, numbering is right, text comes back."""
     fs = [smppref.decode_sm(p) for p in pdus]
     if not fs:
@@ -129,6 +147,11 @@ def oracle_wire(text, esm_class, ref, pdus, params=()):
             return f'short_message of {len(f["short_message"])} octets'
         if (f['src'], f['dst'], f['service_type'], f['registered_delivery']) != (b'1000', b'2000', b'ab', 1):
             return 'a segment lost the addressing/options of the original'
+        for k, want in WIRE_OPTIONS[rich_options].items():
+            if f[k] != want:
+                return f'PDU {fs.index(f) + 1} of {len(fs)} carries {k}={f[k]!r}, the message has {want!r}'
+        if f['esm_class'] & ~0x40 != esm_class & ~0x40:
+            return f'PDU {fs.index(f) + 1} of {len(fs)} carries esm_class {f["esm_class"]:#x}, the message has {esm_class:#x}'
     for f in fs:
         # the message's own optional parameters travel with every segment, once each; no concatenation parameter twice
         for tag, val in params:
@@ -251,9 +274,11 @@ def run(ctx):
         params = [(), ((st.USER_MESSAGE_REFERENCE, 513),), ((st.USER_MESSAGE_REFERENCE, 7), (st.SOURCE_PORT, 65000)),
                   ((st.LANGUAGE_INDICATOR, 3), (st.DESTINATION_PORT, 8080)), ((st.LANGUAGE_INDICATOR, 1),)][vi % 5]
         encoding = [None, 'ucs2', 'gsm0338', None][(vi // 2) % 4]
-        kind, val, hook = asyncio.run(wire_segments(t, esm, ref, encoding, params))
+        rich = vi % 3 != 0
+        kind, val, hook = asyncio.run(wire_segments(t, esm, ref, encoding, params, rich))
         ctx.traces += 1
-        ctx.case(('wire_variant', t, esm, ref, encoding, len(params)), nontrivial=kind == 'ok' and len(val) > 1)
+        ctx.count('wire_variant_every_option_set' if rich else 'wire_variant_default_options')
+        ctx.case(('wire_variant', t, esm, ref, encoding, len(params), rich), nontrivial=kind == 'ok' and len(val) > 1)
         ctx.count('wire_variant_' + ('sar' if not esm & 0x40 else 'udh') + ('_explicit_' + encoding if encoding else '_auto') + f'_{len(params)}_params'
                   + ('' if kind == 'ok' else '_error'))
         refused = [e for e in hook.log if e[0] == 'send_error' and isinstance(e[2], (ValueError, LookupError))]
@@ -261,14 +286,14 @@ def run(ctx):
             # a text the named alphabet cannot carry (or cannot carry in one PDU) is refused through send_error: nothing wrong is sent
             ctx.count('wire_variant_refused_under_explicit_encoding')
         elif kind == 'ok':
-            msg = oracle_wire(t, esm, ref, val, params)
+            msg = oracle_wire(t, esm, ref, val, params, rich)
             if msg:
                 ctx.violation(f'{msg} (text of {len(t)} characters, esm_class {esm:#x}, ref {ref}, encoding {encoding!r}, {len(params)} optional parameter(s))',
                               {'function': 'wire', 'text': [ord(c) for c in t], 'esm_class': esm, 'ref': ref, 'encoding': encoding,
-                               'params': [[int(a), b] for a, b in params]})
+                               'params': [[int(a), b] for a, b in params], 'rich_options': rich})
         elif encoding is None or not isinstance(val, (ValueError, LookupError)):
             ctx.violation(f'the sender raised {val!r} for a text of {len(t)} characters, esm_class {esm:#x}, encoding {encoding!r}',
-                          {'function': 'wire', 'text': [ord(c) for c in t], 'esm_class': esm, 'ref': ref, 'encoding': encoding, 'params': [[int(a), b] for a, b in params]})
+                          {'function': 'wire', 'text': [ord(c) for c in t], 'esm_class': esm, 'ref': ref, 'encoding': encoding, 'params': [[int(a), b] for a, b in params], 'rich_options': rich})
     if proved or not getattr(ctx, 'build_failing', None):
         for name, fn, cases in (
             ('split_sms', 'fun p : list Z * option Z => ser_parts (split_sms (fst p) (snd p))', sp_cases),
@@ -297,8 +322,8 @@ def replay(ctx, path):
         return 0
     t = ''.join(map(chr, r['text']))
     params = tuple((a, b) for a, b in r.get('params', []))
-    kind, val, _h = asyncio.run(wire_segments(t, r['esm_class'], r['ref'], r.get('encoding'), params))
-    msg = oracle_wire(t, r['esm_class'], r['ref'], val, params) if kind == 'ok' else f'the sender raised {val!r}'
+    kind, val, _h = asyncio.run(wire_segments(t, r['esm_class'], r['ref'], r.get('encoding'), params, bool(r.get('rich_options'))))
+    msg = oracle_wire(t, r['esm_class'], r['ref'], val, params, bool(r.get('rich_options'))) if kind == 'ok' else f'the sender raised {val!r}'
     print('replay:', msg or 'property holds on this input')
     if msg:
         print(f'VIOLATION property=C08 replay={path}')
